@@ -12,14 +12,14 @@ import ast, hashlib, json, os, sys, time, traceback
 from types import SimpleNamespace
 import numpy as np
 import sympy as sp
-from vc import report, alg, symla
+from vc import report, alg, symla, npx
 
 PID = "C15"
 FR, CB, SU, BASE, UT, LOC = "pyyeti/frclim.py", "pyyeti/cb.py", "pyyeti/ode/solveunc.py", "pyyeti/ode/_base_ode_class.py", "pyyeti/ode/_utilities.py", "pyyeti/locate.py"
 I_ = sp.I
 
 
-class NPC(alg.NumpyProxy):
+class NPC(npx.NPX):
     def eye(self, n, m=None, **k):
         return symla.toarr(sp.eye(n))
 
@@ -192,10 +192,10 @@ def _cbtf_case(args, t0):
         D = sp.Matrix(n, 1, lambda i, _: alg.expr_of(tf.d[i, j]))
         res_ = m * A + b * V + k * D
         for q in qset:
-            if f != 0 and not iszero(res_[q]):
+            if not iszero(res_[q]):                      # also at 0 Hz (v = 0, boundary d = 0): the q-set is loaded by the boundary inertia only
                 bad["eom_q"].append((j, q))
         for bi, p in enumerate(bset):
-            if f != 0 and not iszero(res_[p] - alg.expr_of(tf.frc[bi, j])):
+            if not iszero(res_[p] - alg.expr_of(tf.frc[bi, j])):
                 bad["eom_b"].append((j, p))
             if not iszero(A[p] - acc[bi, j]):
                 bad["enforced"].append((j, p))
